@@ -146,6 +146,10 @@ def run_case(case, tier):
             frag, _e, _d = fragments.place_near(recs, fname, rng, anchor=titratable_anchor(recs, rng),
                                                 dist_A=rng.choice((3.0, 3.5, 4.5, 6.0)), min_clear_A=2.7)
             if frag and not any(r.raw is None and r.chain == "L" for r in recs):
+                if len(frag) >= 4 and rng.random() < 0.35:
+                    # deposited as two linked hetero residues (900 and 902): one of them may be listed without the other
+                    frag = fragments.split_over_two_residues(frag, 902)
+                    classes.append("ligand-split-over-two-residues")
                 recs = recs + frag
                 classes.append("ligand:" + fname)
                 desc["ligand"] = fname
@@ -275,6 +279,16 @@ def run_case(case, tier):
                 viol.append({"cls": "unlisted-group-titrates", "msg": "%s: %s is titratable but %r is not in the list" % (cname, g["label"], resid)})
             if resid not in Lset and g["use"]:
                 viol.append({"cls": "unlisted-group-reported", "msg": "%s: %s is reported but not listed" % (cname, g["label"])})
+    # (b') a listed group is never discarded in favour of a group that does not titrate (an unlisted one)
+    for cname in lim.rec["names"]:
+        gl_ = lim.rec["confs"][cname]["groups"]
+        tit_keys = {tuple(g["akey"]) for g in gl_ if g["titratable"]}
+        for g in gl_:
+            if g["titratable"] and g["ctg"] is not None:
+                counts["penalised_groups_checked"] = counts.get("penalised_groups_checked", 0) + 1
+                if tuple(g["ctg"]) not in tit_keys:
+                    viol.append({"cls": "listed-group-discarded-for-an-unlisted-one", "msg": "%s: %s is discarded in favour of %s, which does not titrate" % (
+                        cname, g["label"], g["ctg_label"])})
     # (a') every group that titrates is written: a row in the determinant table and one in the summary
     if lim.text:
         parsed = obs.parse_pka_text(lim.text)
